@@ -73,8 +73,9 @@ const (
 	kR2       = 8
 	kFunder   = 9
 	kSetup    = 10 // deploys preset contracts
-	kNobody   = 11 // an address that never holds anything (stands for "not a contract")
-	nKeys     = 12
+	kNobody   = 11 // an address without key use (stands for "not a contract")
+	kRx       = 12 // a funded recipient that sends transactions of its own (sandwich blocks)
+	nKeys     = 13
 )
 
 var codes = map[string][]byte{}
@@ -199,6 +200,7 @@ func newWorld(seed int64) *sim.World {
 		{Key: kR2, Balance: sim.Dna(3, 1)},
 		{Key: kFunder, Balance: big1},
 		{Key: kSetup, Balance: big1},
+		{Key: kRx, Balance: sim.Dna(500, 1)},
 	}
 	return w
 }
@@ -209,7 +211,9 @@ type Inst struct {
 	Addr     *common.Address // address of the instance once a deployment succeeded
 	Deployer int
 	OV       common.Address // oracle voting address used in lock deployments
-	Inc      common.Address // inc_func address (preset "incd")
+	Inc      common.Address // inc_func address (preset "incd") / peer payer instance (preset "payerd")
+	AuxEmb   common.Address // an embedded contract every world has (refundable lock: anybody may deposit)
+	AuxWasm  common.Address // a wasm contract every world has (payer)
 	Salt     []byte
 	Known    []common.Address // every contract address this scenario touched (for store projection)
 }
@@ -236,6 +240,7 @@ func (i *Inst) know(a common.Address) {
 // State = one node + instance knowledge; Exec = the shared machinery.
 type State struct {
 	N    *sim.Node
+	Dest *int // overrides the recipient of the next operation's arguments (sandwich blocks)
 	I    Inst
 	Last []acctJ // projection after the last emitted line (nil: a Reset is needed)
 }
@@ -397,13 +402,20 @@ func (x *Exec) validArgs(s *State, kind, m string, v int) [][]byte {
 		return a
 	}
 	five := sim.Dna(5, 1).Bytes()
+	// the recipient of DNA moved by the operation (sandwich blocks choose it)
+	rcpt := func(def int) []byte {
+		if s.Dest != nil {
+			return w.Addrs[*s.Dest].Bytes()
+		}
+		return w.Addrs[def].Bytes()
+	}
 	switch kind + "." + m {
 	case "timelock.deploy":
 		return [][]byte{pick(u64(0), u64(4000000000), u64(0))}
 	case "timelock.transfer":
-		return [][]byte{w.Addrs[kR1].Bytes(), pick(part.Bytes(), bal.Bytes(), new(big.Int).Add(bal, common.DnaBase).Bytes())}
+		return [][]byte{rcpt(kR1), pick(part.Bytes(), bal.Bytes(), new(big.Int).Add(bal, common.DnaBase).Bytes())}
 	case "timelock.terminate", "multisig.terminate", "refundlock.terminate":
-		return [][]byte{pick(w.Addrs[kR2].Bytes(), w.Addrs[s.I.Deployer].Bytes(), w.Addrs[kR1].Bytes())}
+		return [][]byte{pick(rcpt(kR2), w.Addrs[s.I.Deployer].Bytes(), w.Addrs[kR1].Bytes())}
 	case "multisig.deploy":
 		return [][]byte{pick([]byte{2}, []byte{2}, []byte{33}), pick([]byte{1}, []byte{2}, []byte{1})}
 	case "multisig.add":
@@ -449,7 +461,7 @@ func (x *Exec) validArgs(s *State, kind, m string, v int) [][]byte {
 		return [][]byte{pick(s.I.Inc.Bytes(), s.I.Inc.Bytes(), s.I.Inc.Bytes()), pick(part.Bytes(), []byte{}, new(big.Int).Add(bal, common.DnaBase).Bytes())}
 	case "payer.pay", "payer.payfail", "payer.paytwice":
 		two := new(big.Int).Div(new(big.Int).Mul(bal, big.NewInt(2)), big.NewInt(3))
-		return [][]byte{w.Addrs[kR1].Bytes(), pick(part.Bytes(), two.Bytes(), new(big.Int).Add(bal, common.DnaBase).Bytes())}
+		return [][]byte{rcpt(kR1), pick(part.Bytes(), two.Bytes(), new(big.Int).Add(bal, common.DnaBase).Bytes())}
 	case "payer.burn":
 		return [][]byte{pick(part.Bytes(), bal.Bytes(), new(big.Int).Add(bal, common.DnaBase).Bytes())}
 	case "payer.store", "payer.storefail":
@@ -774,6 +786,22 @@ func (x *Exec) run(s *State, kind string, op Op, caseID int, step int) bool {
 	from := x.sender(s, op)
 	nonce := n.App.State.GetNonce(x.W.Addrs[from]) + 1
 
+	// sandwich blocks: "sw-<mid>-<tail>"
+	mid, tail := "", ""
+	if strings.HasPrefix(op.Pair, "sw-") {
+		p := strings.Split(op.Pair, "-")
+		mid, tail = p[1], p[2]
+		switch mid {
+		case "self":
+			d := from
+			s.Dest = &d
+		case "xout":
+			d := kRx
+			s.Dest = &d
+		}
+		defer func() { s.Dest = nil }()
+	}
+
 	// how much gas does the operation need in this state? (dry run on a throw-away state)
 	probe := x.buildTx(s, kind, op, from, nonce)
 	probe.MaxFee = sim.Dna(2000, 1)
@@ -781,14 +809,16 @@ func (x *Exec) run(s *State, kind string, op Op, caseID int, step int) bool {
 	if rc := n.DryRun(x.W.Tx(*probe), 3000000); rc != nil {
 		need = rc.GasUsed
 	}
+	_, mainEmb := embeddedHash[kind]
 
-	var txs []*types.Transaction
+	// the transactions of the block, in block order
+	var plan []planned
 	switch op.Pair {
 	case "same":
 		first := op
 		first.Gas = "small"
 		spec := x.buildTx(s, kind, first, from, nonce)
-		txs = append(txs, x.priceTx(n, spec, x.gasFor("small", need)))
+		plan = append(plan, planned{tx: x.priceTx(n, spec, x.gasFor("small", need)), kind: kind, role: "first"})
 		nonce++
 	case "term":
 		first := Op{M: "terminate", Arg: "valid", Amt: "zero", Gas: "small", Who: op.Who}
@@ -799,7 +829,7 @@ func (x *Exec) run(s *State, kind string, op Op, caseID int, step int) bool {
 			needT = rc.GasUsed
 		}
 		spec := x.buildTx(s, kind, first, from, nonce)
-		txs = append(txs, x.priceTx(n, spec, x.gasFor("small", needT)))
+		plan = append(plan, planned{tx: x.priceTx(n, spec, x.gasFor("small", needT)), kind: kind, role: "first"})
 		nonce++
 	}
 	spec := x.buildTx(s, kind, op, from, nonce)
@@ -807,44 +837,136 @@ func (x *Exec) run(s *State, kind string, op Op, caseID int, step int) bool {
 		spec.Tips = sim.Dna(3, 10)
 	}
 	g := x.gasFor(op.Gas, need)
-	if _, emb := embeddedHash[kind]; !emb && op.Gas == "enough" {
+	if !mainEmb && op.Gas == "enough" {
 		g += wasmHeadroom
 	}
-	txs = append(txs, x.priceTx(n, spec, g))
-
-	accepted := txs[:0]
-	for _, tx := range txs {
-		if err := n.Pool.AddExternalTxs(validation.InboundTx, tx); err != nil {
-			x.Stats["rejected"]++
-			x.Stats["rejected:"+err.Error()]++
-			break // a later nonce cannot be mined without the earlier one
+	role := "only"
+	if tail != "" {
+		role = "first"
+	} else if len(plan) > 0 {
+		role = "tail"
+	}
+	plan = append(plan, planned{tx: x.priceTx(n, spec, g), kind: kind, role: role})
+	nonce++
+	if tail != "" {
+		// something changes a balance OUTSIDE the contract environment ...
+		switch mid {
+		case "cin":
+			if s.I.Addr != nil {
+				tx := x.W.Tx(sim.TxSpec{From: from, To: s.I.Addr, Type: types.SendTx, Amount: sim.Dna(5, 1), MaxFee: sim.Dna(10, 1), Nonce: nonce})
+				plan = append(plan, planned{tx: tx, plain: true, role: "mid"})
+				nonce++
+			}
+		case "xout":
+			to := x.W.Addrs[kFunder]
+			tx := x.W.Tx(sim.TxSpec{From: kRx, To: &to, Type: types.SendTx, Amount: sim.Dna(2, 1), MaxFee: sim.Dna(10, 1),
+				Nonce: n.App.State.GetNonce(x.W.Addrs[kRx]) + 1})
+			plan = append(plan, planned{tx: tx, plain: true, role: "mid"})
 		}
-		accepted = append(accepted, tx)
+		// ... and further contract transactions follow in the same block
+		auxOp := func(akind string, addr common.Address, o Op, gas uint64) {
+			a := addr
+			aux := &State{N: n, I: Inst{Kind: akind, Addr: &a, Deployer: kOwner, OV: x.W.Addrs[kNobody]}}
+			sp := x.buildTx(aux, akind, o, from, nonce)
+			plan = append(plan, planned{tx: x.priceTx(n, sp, gas), kind: akind, role: "tail"})
+			nonce++
+		}
+		again := func() {
+			o := op
+			o.Pair = "no"
+			sp := x.buildTx(s, kind, o, from, nonce)
+			ga := need*2 + 3000
+			if !mainEmb {
+				ga += wasmHeadroom
+			}
+			plan = append(plan, planned{tx: x.priceTx(n, sp, ga), kind: kind, role: "tail"})
+			nonce++
+		}
+		deposit := Op{M: "deposit", Arg: "valid", Amt: "some", Gas: "enough", Who: op.Who, Pair: "no"}
+		switch tail {
+		case "again":
+			again()
+		case "emb":
+			auxOp("refundlock", s.I.AuxEmb, deposit, 8000)
+		case "wasm":
+			auxOp("payer", s.I.AuxWasm, Op{M: "store", Arg: "valid", Amt: "zero", Gas: "enough", Who: op.Who, Pair: "no"}, 4000+wasmHeadroom)
+		case "fail":
+			auxOp("refundlock", s.I.AuxEmb, Op{M: "unknown", Arg: "valid", Amt: "zero", Gas: "enough", Who: op.Who, Pair: "no"}, 3000)
+		case "two":
+			auxOp("refundlock", s.I.AuxEmb, deposit, 8000)
+			again()
+		case "termemb":
+			if s.I.Addr != nil {
+				sp := x.buildTx(s, kind, Op{M: "terminate", Arg: "valid", Amt: "zero", Gas: "enough", Who: op.Who, Pair: "no"}, from, nonce)
+				plan = append(plan, planned{tx: x.priceTx(n, sp, 25000), kind: kind, role: "tail"})
+				nonce++
+			}
+			auxOp("refundlock", s.I.AuxEmb, deposit, 8000)
+		}
 	}
-	if len(accepted) == 0 {
-		return false
-	}
+
 	pre := s.Last
-	if pre == nil {
-		pre = x.snapshot(s)
-	}
 	preHeight := n.Chain.Head.Height()
 	fpg := new(big.Int).Set(n.App.State.FeePerGas())
-	sizeFees := make([]*big.Int, len(accepted))
-	for i, tx := range accepted {
-		sizeFees[i] = n.SizeFee(tx)
-	}
-	blk := n.Propose(20)
-	mined := blk.Body.Transactions
-	if len(mined) != len(accepted) {
-		// the proposer filtered something out: nothing to judge; forget this node's pool by re-cloning
-		x.Stats["filtered"]++
-		s.N = cloneNode(n)
-		if r, ok := n.DB.(*relDB); ok {
-			r.DB = nil
+	var blk *types.Block
+	if tail != "" {
+		// the proposer chooses the order of the body: the repository's own block assembly for a given body
+		if pre == nil {
+			pre = x.snapshot(s)
 		}
-		s.Last = nil
-		return true
+		var txs []*types.Transaction
+		for _, p := range plan {
+			txs = append(txs, p.tx)
+		}
+		n.W.SetNow(n.Chain.Head.Time() + 20)
+		b, err := n.Chain.VerifCraftBlock(txs, n.Chain.Head.Time()+20)
+		if err != nil {
+			x.Stats["craft_refused"]++
+			x.Stats["craft_refused:"+err.Error()]++
+			return false
+		}
+		blk = b
+	} else {
+		accepted := 0
+		for _, p := range plan {
+			if err := n.Pool.AddExternalTxs(validation.InboundTx, p.tx); err != nil {
+				x.Stats["rejected"]++
+				x.Stats["rejected:"+err.Error()]++
+				break // a later nonce cannot be mined without the earlier one
+			}
+			accepted++
+		}
+		if accepted == 0 {
+			return false
+		}
+		plan = plan[:accepted]
+		if len(plan) == 1 {
+			plan[0].role = "only"
+		}
+		if pre == nil {
+			pre = x.snapshot(s)
+		}
+		blk = n.Propose(20)
+		if len(blk.Body.Transactions) != len(plan) {
+			// the proposer filtered something out: nothing to judge; forget this node's pool by re-cloning
+			x.Stats["filtered"]++
+			s.N = cloneNode(n)
+			if r, ok := n.DB.(*relDB); ok {
+				r.DB = nil
+			}
+			s.Last = nil
+			return true
+		}
+	}
+	mined := blk.Body.Transactions
+	for i, tx := range mined {
+		if tx.Hash() != plan[i].tx.Hash() {
+			panic("block body differs from the planned order")
+		}
+	}
+	sizeFees := make([]*big.Int, len(mined))
+	for i, tx := range mined {
+		sizeFees[i] = n.SizeFee(tx)
 	}
 	rec := sim.NewRec()
 	if err := n.AddWith(sim.Encode(blk), rec); err != nil {
@@ -853,33 +975,41 @@ func (x *Exec) run(s *State, kind string, op Op, caseID int, step int) bool {
 	if len(rec.Txs) != len(mined) {
 		panic("collector saw a different number of transactions")
 	}
-	ro, err := n.App.Readonly(preHeight)
+	// The reference state a transaction of the block must have seen: the committed pre-state with the
+	// earlier transactions of the block applied ONE BY ONE, each in an execution context of its own
+	// (fresh VM and environment).  The recording environments answer the reads of the contract code from it.
+	ref, err := n.App.ForCheck(preHeight)
 	if err != nil {
 		panic(err)
 	}
 	var lines []tr.M
-	undetermined := false
 	changed := false
+	okContract := 0
 	for i, tx := range mined {
 		c := rec.Txs[i]
+		sender, _ := types.Sender(tx)
+		last := i == len(mined)-1
+		if plan[i].plain {
+			lines = append(lines, tr.M{"ev": "Plain", "id": caseID, "from": x.W.Name(sender), "to": x.W.Name(*tx.To),
+				"amount": nz(sim.Limbs(tx.AmountOrZero())), "fee": nz(sim.Limbs(c.Fee)), "tips": nz(sim.Limbs(tx.TipsOrZero()))})
+			if _, _, err := n.Chain.VerifApplyTxFresh(ref, blk.Header, tx); err != nil {
+				panic("reference application failed: " + err.Error())
+			}
+			changed = true
+			continue
+		}
 		rc := n.Chain.GetReceipt(tx.Hash())
 		if rc == nil {
 			panic("no receipt for a mined contract transaction")
 		}
-		sender, _ := types.Sender(tx)
-		// the recording environment answers reads from the committed pre-state: that is what the second
-		// transaction of a block sees iff the first one failed (a failed run leaves no trace)
-		sh := sim.RunShadow(ro, blk.Header, tx, n.Cfg.Consensus.EnableUpgrade10)
-		if i < len(mined)-1 && rc.Success {
-			undetermined = true
-		}
+		sh := sim.RunShadow(ref, blk.Header, tx, n.Cfg.Consensus.EnableUpgrade10)
 		isWasm := false
 		if tx.Type == types.DeployContractTx {
 			if att := attachments.ParseDeployContractAttachment(tx); att != nil && len(att.Code) > 0 {
 				isWasm = true
 			}
 		} else if tx.Type == types.CallContractTx {
-			if h := ro.State.GetCodeHash(*tx.To); h != nil {
+			if h := ref.State.GetCodeHash(*tx.To); h != nil {
 				if _, ok := embedded.AvailableContracts[*h]; !ok {
 					isWasm = true
 				}
@@ -890,10 +1020,10 @@ func (x *Exec) run(s *State, kind string, op Op, caseID int, step int) bool {
 			s.I.know(a)
 		}
 		var wsh sim.WasmShadowResult
-		if isWasm && len(mined) == 1 {
+		if isWasm {
 			bought := new(big.Int).Sub(tx.MaxFeeOrZero(), sizeFees[i])
 			bought.Div(bought, fpg)
-			wsh = n.RunWasmShadow(preHeight, blk.Header, tx, bought.Uint64())
+			wsh = n.RunWasmShadowOn(ref, blk.Header, tx, bought.Uint64())
 			for _, w := range wsh.Writes {
 				s.I.know(w.A)
 			}
@@ -911,23 +1041,32 @@ func (x *Exec) run(s *State, kind string, op Op, caseID int, step int) bool {
 				errText = errText[:120]
 			}
 		}
-		line := tr.M{"ev": "Tx", "id": caseID, "step": step, "c": kind, "op": op, "tx": t,
+		line := tr.M{"ev": "Tx", "id": caseID, "step": step, "c": plan[i].kind, "mainc": kind, "op": op, "role": plan[i].role, "tx": t,
 			"rc":  rcJ{Success: rc.Success, GasUsed: rc.GasUsed, GasCost: nz(sim.Limbs(rc.GasCost)), Oog: !rc.Success && isOutOfGas(errText)},
-			"eff": x.effOf(c, sh, wsh, rc.ContractAddress), "mid": i < len(mined)-1, "st": []acctJ{}, "err": errText, "need": need, "method": rc.Method}
+			"eff": x.effOf(c, sh, wsh, rc.ContractAddress), "mid": !last, "st": []acctJ{}, "err": errText, "need": need, "method": rc.Method}
 		lines = append(lines, line)
 		if rc.Success {
 			changed = true
+			okContract++
 			x.Stats["tx_ok"]++
 		} else {
 			x.Stats["tx_fail"]++
 		}
+		if !last {
+			if _, rrc, err := n.Chain.VerifApplyTxFresh(ref, blk.Header, tx); err != nil {
+				panic("reference application failed: " + err.Error())
+			} else if rrc != nil && rrc.Success != rc.Success {
+				x.Stats["reference_outcome_differs"]++
+			}
+		}
 		// lifecycle knowledge of the driver (addresses only)
-		if i == len(mined)-1 && rc.Success && tx.Type == types.DeployContractTx && s.I.Addr == nil {
+		isMain := plan[i].role == "only" || (tail == "" && last) || (tail != "" && plan[i].role == "first")
+		if isMain && rc.Success && tx.Type == types.DeployContractTx && s.I.Addr == nil {
 			a := rc.ContractAddress
 			s.I.Addr = &a
 			s.I.Deployer = from
 		}
-		if i == len(mined)-1 {
+		if isMain {
 			if op.Good && !rc.Success {
 				x.Stats["good_but_failed"]++
 				x.Stats["good_but_failed:"+kind+"."+op.M+":"+errText]++
@@ -937,11 +1076,11 @@ func (x *Exec) run(s *State, kind string, op Op, caseID int, step int) bool {
 			}
 		}
 	}
-	if undetermined {
-		// the first attempt (too little gas) succeeded nevertheless: no observation of the state in between
-		x.Stats["pair_first_succeeded"]++
-		s.Last = nil
-		return true
+	if tail != "" {
+		x.Stats["sandwich_blocks"]++
+		if okContract >= 2 {
+			x.Stats["sandwich_two_successes"]++
+		}
 	}
 	post := x.snapshot(s)
 	lines[len(lines)-1]["st"] = post
@@ -954,6 +1093,14 @@ func (x *Exec) run(s *State, kind string, op Op, caseID int, step int) bool {
 	}
 	s.Last = post
 	return changed
+}
+
+// planned is one transaction of the block an operation stands for.
+type planned struct {
+	tx    *types.Transaction
+	plain bool   // not a contract transaction
+	kind  string // contract kind it addresses
+	role  string // "only" | "first" | "mid" | "tail"
 }
 
 // ---------------------------------------------------------------------------------------------
@@ -970,6 +1117,21 @@ func (x *Exec) mustRun(s *State, kind string, op Op) {
 
 func def(m, amt, who string) Op {
 	return Op{M: m, Arg: "valid", Amt: amt, Gas: "enough", Who: who, Pair: "no"}
+}
+
+// auxContracts deploys the two contracts every world has (targets of the further contract
+// transactions of sandwich blocks): a refundable oracle lock - anybody may deposit - and a payer.
+func (x *Exec) auxContracts(base *State) {
+	v := &State{N: base.N, I: Inst{Kind: "refundlock", OV: x.W.Addrs[kNobody]}}
+	x.mustRun(v, "refundlock", def("deploy", "some", "owner"))
+	base.N = v.N
+	base.I.AuxEmb = *v.I.Addr
+	p := &State{N: base.N, I: Inst{Kind: "payer"}}
+	x.mustRun(p, "payer", def("deploy", "zero", "owner"))
+	base.N = p.N
+	base.I.AuxWasm = *p.I.Addr
+	base.I.Known = append(append(base.I.Known, v.I.Known...), p.I.Known...)
+	base.Last = nil
 }
 
 func (x *Exec) preset(base *State, name string) *State {
@@ -991,11 +1153,7 @@ func (x *Exec) preset(base *State, name string) *State {
 		s.I.OV = *v.I.Addr
 		s.I.Known = append(s.I.Known, v.I.Known...)
 	case "payerd":
-		v := &State{N: s.N, I: Inst{Kind: "payer"}}
-		x.mustRun(v, "payer", def("deploy", "zero", "owner"))
-		s.N = v.N
-		s.I.Inc = *v.I.Addr // the peer instance that cross-contract calls go to
-		s.I.Known = append(s.I.Known, v.I.Known...)
+		s.I.Inc = s.I.AuxWasm // the peer instance that cross-contract calls go to
 	case "incd":
 		v := &State{N: s.N, I: Inst{Kind: "inc"}}
 		x.mustRun(v, "inc", def("deploy", "zero", "owner"))
@@ -1040,6 +1198,7 @@ func main() {
 
 	base := &State{N: boot(x.W)}
 	x.emptyBlocks(base.N, 3) // the fee per gas of the genesis state is zero
+	x.auxContracts(base)
 	presets := map[string]*State{}
 
 	common := func(a, b Case) int {
